@@ -15,7 +15,7 @@ from dataclasses import dataclass, field
 from typing import Any, Dict, List, Optional
 
 VERIF_DIR = os.path.dirname(os.path.dirname(os.path.abspath(__file__)))
-EVIDENCE_DIR = os.path.join(VERIF_DIR, "evidence")
+EVIDENCE_DIR = os.environ.get("CMINX_SA_EVIDENCE_DIR") or os.path.join(VERIF_DIR, "evidence")
 REPLAY_DIR = os.path.join(EVIDENCE_DIR, "replay")
 KNOWN_FILE = os.path.join(VERIF_DIR, "known_findings.json")
 
@@ -136,11 +136,11 @@ def finish(rep: Report, seed: int = 0, error: Optional[str] = None) -> int:
             n = rep.count(rule)
             if n < minimum:
                 floor_errors.append(f"{rule}: only {n} instance(s) of '{what}' found, expected at least {minimum}")
-    if floor_errors and error is None:
-        error = "vacuity guard: " + "; ".join(floor_errors)
-
     violations = [i for i in rep.instances if i.verdict == VIOLATION]
     unlisted = [i for i in violations if i.stable_key() not in known_keys]
+    # a vacuity guard never masks a violation that was actually found
+    if floor_errors and error is None and not unlisted:
+        error = "vacuity guard: " + "; ".join(floor_errors)
     listed = [i for i in violations if i.stable_key() in known_keys]
 
     os.makedirs(REPLAY_DIR, exist_ok=True)
